@@ -355,3 +355,40 @@ Example real_model_joiner_gets_produced_value :
       (threads (exec [[mkOp GSF 1 101 0; mkOp GSF 2 102 0]; [mkOp GSF 1 201 0]] [0;0;0; 1;1; 0;0;0; 0;0;0;0;0;0; 1]))
   = [[(101%Z, true); (102%Z, true)]; [(101%Z, false)]].
 Proof. vm_compute. reflexivity. Qed.
+
+(* (i) Generation of the entry: a variant in which a JOINER, once released, "cleans up" by
+   deleting the key (delete is by key, not of an object).  If a call of the next generation has
+   registered under the key in the meantime, the joiner of generation g removes the entry of
+   generation g+1; a further newcomer then starts a second execution next to g+1's. *)
+Definition joiner_deletes_step (s : state) (t : nat) : option state :=
+  match nth_error (threads s) t with
+  | Some th =>
+    match cur_op th, tpc th with
+    | Some o, PWait c =>
+      match ogrp o, step s t with
+      | GSF, Some s' =>
+        (* wake and return as usual, and delete(g.calls, key) on the way out *)
+        Some (mkState (now s') (set_calls (calls s') GSF (okey o) None) (heap s') (nextc s')
+                      (resources s') (ncreated s') (threads s'))
+      | _, r => r
+      end
+    | _, _ => step s t
+    end
+  | None => None
+  end.
+
+(* A leads, B joins; A finishes; C registers generation 2 and runs its function; only now B wakes
+   and deletes the key - C's entry; D finds no entry and starts another execution next to C's *)
+Theorem delete_by_key_hits_next_generation_refuted :
+  exists scripts sched, 2 <= running GSF 1 (run joiner_deletes_step (init scripts) sched).
+Proof.
+  exists [[mkOp GSF 1 101 0]; [mkOp GSF 1 201 0]; [mkOp GSF 1 301 0]; [mkOp GSF 1 401 0]],
+         [0;0;0; 1;1; 0;0;0; 2;2;2; 1; 3;3;3].
+  vm_compute. apply le_n.
+Qed.
+
+Example real_model_generations_do_not_mix :
+  let s := exec [[mkOp GSF 1 101 0]; [mkOp GSF 1 201 0]; [mkOp GSF 1 301 0]; [mkOp GSF 1 401 0]]
+                [0;0;0; 1;1; 0;0;0; 2;2;2; 1; 3;3;3] in
+  running GSF 1 s = 1 /\ enabled s 3 = false.
+Proof. vm_compute. split; reflexivity. Qed.
